@@ -48,6 +48,20 @@ theorem Contig.snoc {l : List Token} {t : Token} (h : Contig l) (hl : ∀ a, l.g
       apply hl
       simpa [List.getLast?_cons_cons] using hx
 
+theorem Contig.get {l : List Token} (h : Contig l) (i : Nat) (hi : i + 1 < l.length) : Link l[i] l[i + 1] := by
+  induction l generalizing i with
+  | nil => simp at hi
+  | cons a rest ih =>
+    cases rest with
+    | nil => simp at hi
+    | cons b rest' =>
+      obtain ⟨h1, h2⟩ := h
+      cases i with
+      | zero => exact h1
+      | succ j =>
+        have := ih h2 j (by simp only [List.length_cons] at hi ⊢; omega)
+        simpa using this
+
 /-- the source range of a text chunk is as long as the chunk's bytes -/
 def TextLen (t : Token) : Prop :=
   match t with
